@@ -32,6 +32,7 @@
 
 #include "interrogateDatabase.h"
 #include "interrogateManifest.h"
+#include "string_utils.h"
 #include "interrogateElement.h"
 #include "cppFunctionType.h"
 #include "cppParameterList.h"
@@ -923,14 +924,15 @@ hash_function_signature(FunctionRemap *remap) {
     // Huh.  We still have a conflict.  This should be extremely rare.  Well,
     // just tack on a letter until it's resolved.
     string old_hash = hash;
-    for (char ch = 'a'; ch <= 'z' && !inserted; ch++) {
-      hash = old_hash + ch;
+    for (int i = 0; !inserted; ++i) {
+      // Try a, b, ..., z, and then a number, until we find an unused name.
+      if (i < 26) {
+        hash = old_hash + (char)('a' + i);
+      } else {
+        hash = old_hash + format_string(i);
+      }
       inserted = _wrappers_by_hash.insert
         (WrappersByHash::value_type(hash, remap)).second;
-    }
-    if (!inserted) {
-      nout << "Internal error!  Too many conflicts with hash "
-           << hash << "\n";
     }
   }
 
